@@ -126,7 +126,7 @@ def layouts(r, lines, exhaustive_upto=4, samples=10):
     return out
 
 
-def gen_history(r, hid, masked, quick=True):
+def gen_history(r, hid, masked, quick=True, nruns=None):
     risky = None if masked else r.choice(RISKY + [None])
     pkgs = r.sample(P4, r.randint(1, 4))
     vs = [v for v in VERSIONS if risky == "spelling" or v != [1, 0, 0]]
@@ -140,7 +140,7 @@ def gen_history(r, hid, masked, quick=True):
             rec[p] = vtext(r.choice(vs))
     runs = []
     base = gen_lines(r, pkgs, risky, 1, 5)
-    for k in range(r.randint(1, 3)):
+    for k in range(nruns or r.randint(1, 3)):
         if k and r.random() < 0.5:                     # the files usually change a little between starts
             lines = copy.deepcopy(base)
             for _ in range(r.randint(1, 2)):
@@ -189,6 +189,10 @@ def run_histories(job):
     logging.disable(logging.CRITICAL)
     r = random.Random(job["seed"])
     hists = job.get("hists") or [gen_history(r, "%d.%d" % (job["seed"], n), bool(n % 2), job["quick"]) for n in range(job["count"])]
+    if not job.get("hists"):
+        hists += [gen_yaml_history(r, "Y/%d.%d" % (job["seed"], n), job["quick"]) for n in range(job.get("yaml", 0))]
+    yaml_hists = [h for h in hists if h.get("yaml")]
+    hists = [h for h in hists if not h.get("yaml")]
     folder = os.path.join(job["scratch"], "pyscript_%d" % os.getpid())
     real_process = rq.process_all_requirements
     out = []
@@ -270,11 +274,153 @@ def run_histories(job):
             await hass.async_stop(force=True)
 
     try:
-        loop.run_until_complete(outer())
+        if hists:
+            loop.run_until_complete(outer())
     finally:
         loop.close()
         shutil.rmtree(folder, ignore_errors=True)
+    logging.disable(logging.CRITICAL)
+    for h in yaml_hists:
+        out.append(run_yaml_history(h, job["scratch"]))
     return out
+
+
+def gen_yaml_history(r, hid, quick=True):
+    """A history lived through the real set-up path: pyscript configured in configuration.yaml, first run =
+    async_setup_component (import flow creates the config entry), later runs = the pyscript.reload service
+    (yaml re-read, import flow again).  The record starts empty: the entry is created by the flow."""
+    h = gen_history(r, hid, True, quick, nruns=r.randint(2, 4))
+    h["yaml"] = True
+    h["rec"] = {}
+    for run in h["runs"]:
+        run["layouts"] = [run["layouts"][run["install_layout"]]]
+        run["install_layout"] = 0
+        run["allow"] = run["allow"] or r.random() < 0.5          # mostly allowed: something has to be installed first
+    return h
+
+
+def yaml_witness():
+    L = lambda v: {"f": "pin", "p": "aa", "v": list(v)}      # noqa: E731
+    run = lambda v: {"lines": [L(v)], "allow": True, "ext": {}, "layouts": [{"requirements.txt": [0]}], "install_layout": 0,      # noqa: E731
+                     "latest": {"aa": "2.0"}}
+    return {"id": "W/yaml-reload-keeps-record", "risky": None, "masked": True, "yaml": True, "pkgs": ["aa"], "env": {"aa": None}, "rec": {},
+            "runs": [run((1, 0)), run((1, 0)), run((2, 0)), run((2, 0))]}
+
+
+def run_yaml_history(h, scratch):
+    """One yaml-configured HomeAssistant instance per history; same recording format as run_histories."""
+    import asyncio
+    import tempfile
+    import world
+    from importlib.metadata import PackageNotFoundError
+    from unittest.mock import patch
+    from vloop import VirtualLoop
+    from custom_components.pyscript import requirements as rq
+    from custom_components.pyscript.const import CONF_ALLOW_ALL_IMPORTS, CONF_INSTALLED_PACKAGES, DOMAIN, FOLDER, UNPINNED_VERSION
+    from custom_components.pyscript.function import Function
+    root = tempfile.mkdtemp(prefix="yamlcfg", dir=scratch)
+    folder = os.path.join(root, FOLDER)
+    real_process = rq.process_all_requirements
+    env = dict(h["env"])
+    calls, tables, rec_runs = [], [], []
+    cur = {}
+
+    def installed(name):
+        if env.get(name) is None:
+            raise PackageNotFoundError(name)
+        return env[name]
+
+    async def installer(hass_, domain, reqs, *a, **k):
+        for req in reqs:
+            calls.append(req)
+            if "==" in req:
+                name, ver = req.split("==", 1)
+                env[name] = ver
+            else:
+                env[req] = cur["run"]["latest"].get(req)
+
+    def spy(*a, **k):
+        t = real_process(*a, **k)
+        tables.append(t)
+        return t
+
+    def table(t):
+        return [entry(k, v["version"], v["version"] == UNPINNED_VERSION) for k, v in t.items()]
+
+    def record(hass):
+        es = hass.config_entries.async_entries(DOMAIN)
+        return dict(es[0].data.get(CONF_INSTALLED_PACKAGES, {})) if es else {}
+
+    loop = VirtualLoop()
+    asyncio.set_event_loop(loop)
+
+    async def main():
+        from pytest_homeassistant_custom_component.common import async_test_home_assistant
+        from homeassistant import loader
+        from homeassistant.const import EVENT_HOMEASSISTANT_STARTED
+        from homeassistant.setup import async_setup_component
+        async with async_test_home_assistant(loop, config_dir=root) as hass:
+            hass.data.pop(loader.DATA_CUSTOM_COMPONENTS, None)
+            os.makedirs(os.path.join(root, "custom_components"), exist_ok=True)
+            os.symlink(os.path.join(world.SRC_ROOT, "custom_components", "pyscript"), os.path.join(root, "custom_components", "pyscript"))
+            cfgbox = {"cfg": {DOMAIN: {CONF_ALLOW_ALL_IMPORTS: True, "hass_is_global": False}}}
+            with patch("homeassistant.config.load_yaml_config_file", side_effect=lambda *a, **k: cfgbox["cfg"]), \
+                    patch("custom_components.pyscript.watchdog_start", return_value=None), \
+                    patch.object(rq, "installed_version", installed), patch.object(rq, "async_process_requirements", installer), \
+                    patch.object(rq, "process_all_requirements", spy):
+                for k, run in enumerate(h["runs"]):
+                    cur["run"] = run
+                    env.update(run["ext"])
+                    cfgbox["cfg"] = {DOMAIN: {CONF_ALLOW_ALL_IMPORTS: run["allow"], "hass_is_global": False}}
+                    before_env, before_rec = dict(env), record(hass)
+                    lay = run["layouts"][run["install_layout"]]
+                    os.makedirs(folder, exist_ok=True)
+                    for rel in PATHS:                       # (only the requirement files are replaced)
+                        if os.path.exists(os.path.join(folder, rel)):
+                            os.unlink(os.path.join(folder, rel))
+                    for rel, idxs in lay.items():
+                        path = os.path.join(folder, rel)
+                        os.makedirs(os.path.dirname(path), exist_ok=True)
+                        with open(path, "w", encoding="utf-8") as f:
+                            f.write("".join(render(run["lines"][i]) + "\n" for i in idxs))
+                    del calls[:]
+                    del tables[:]
+                    exc = ""
+                    try:
+                        if k == 0:
+                            if not await async_setup_component(hass, DOMAIN, cfgbox["cfg"]):
+                                exc = "SetupFailed"
+                            hass.bus.async_fire(EVENT_HOMEASSISTANT_STARTED)
+                        else:
+                            await hass.services.async_call(DOMAIN, "reload", {}, blocking=True)
+                        await world.settle(loop)
+                    except Exception as ex:
+                        exc = type(ex).__name__
+                    if not exc and len(tables) != 1:
+                        exc = "install_requirements ran %d times" % len(tables)
+                    rec2 = record(hass)
+                    rec_runs.append({
+                        "lines": run["lines"], "allow": run["allow"], "sels": [table(t) for t in tables[:1]], "layouts_tried": 0,
+                        "inst": {p: vproj(before_env.get(p)) for p in P4}, "rec": {p: vproj(before_rec.get(p)) for p in P4},
+                        "calls": [entry(c.split("==", 1)[0], c.split("==", 1)[1], False) if "==" in c else entry(c, "", True) for c in calls],
+                        "after": {p: vproj(env.get(p)) for p in P4}, "rec2": {p: vproj(rec2.get(p)) for p in P4},
+                        "extra": sum(1 for x in list(rec2) + list(before_rec) if x not in P4), "exc": exc,
+                        "raw": {"texts": [render(l) for l in run["lines"]], "calls": list(calls), "rec2": rec2,
+                                "how": "async_setup_component (yaml)" if k == 0 else "pyscript.reload"},
+                    })
+            await hass.async_stop(force=True)
+
+    try:
+        world.reset()
+        Function.hass = None
+        loop.run_until_complete(main())
+    finally:
+        try:
+            loop.close()
+        except Exception:
+            pass
+        shutil.rmtree(root, ignore_errors=True)
+    return {"id": h["id"], "risky": h["risky"], "masked": h["masked"], "runs": rec_runs, "hist": h}
 
 
 # ---------------------------------------------------------------- validation by the acceptor
@@ -406,9 +552,10 @@ def main(ctx):
     with ThreadPoolExecutor(max_workers=4) as ex:
         f_mc = [ex.submit(run_mc, it) for it in mcs]
         # (T) histories on the real code, meanwhile
-        jobs = [{"seed": ctx.seed * 1000 + k, "count": scaled(ctx.pick(30, 300)), "scratch": ctx.scratch, "quick": ctx.quick} for k in range(16)]
-        jobs[0]["hists"] = None
-        results = run_workers("harness.drivers.c20", "run_histories", jobs + [{"seed": 0, "hists": witnesses(), "scratch": ctx.scratch, "quick": True}],
+        jobs = [{"seed": ctx.seed * 1000 + k, "count": scaled(ctx.pick(30, 300)), "yaml": scaled(ctx.pick(6, 60)), "scratch": ctx.scratch,
+                 "quick": ctx.quick} for k in range(16)]
+        results = run_workers("harness.drivers.c20", "run_histories",
+                              jobs + [{"seed": 0, "hists": witnesses() + [yaml_witness()], "scratch": ctx.scratch, "quick": True}],
                               ctx.scratch, nproc=min(17, NPROC))
         mc_res = [f.result() for f in f_mc]
     for (label, _, _), res in zip(mcs, mc_res):
@@ -425,6 +572,13 @@ def main(ctx):
     runs = [run for c in cases for run in c["runs"]]
     ctx.cov["histories"] = len(cases)
     ctx.cov["runs_of_install_requirements"] = len(runs)
+    ctx.cov["yaml_histories"] = sum(1 for c in cases if c["hist"].get("yaml"))
+    ctx.cov["starts_through_yaml_setup"] = sum(1 for c in cases if c["hist"].get("yaml") and c["runs"])
+    ctx.cov["reloads_through_service"] = sum(len(c["runs"]) - 1 for c in cases if c["hist"].get("yaml"))
+    ctx.cov["reloads_with_own_package"] = sum(1 for c in cases if c["hist"].get("yaml") for run in c["runs"][1:]
+                                              if any(run["rec"][p] and run["rec"][p] == run["inst"][p] for p in P4))
+    if not ctx.replay and ctx.cov["reloads_with_own_package"] == 0:
+        raise MachineryFailure("vacuous coverage: no reload with a package installed by pyscript")
     ctx.cov["evaluations"] = sum(run["layouts_tried"] for run in runs) + len(runs)
     ctx.cov["process_all_requirements_calls"] = sum(run["layouts_tried"] for run in runs)
     ctx.cov["exhaustively_permuted_line_sets"] = sum(1 for c in cases for run in c["hist"]["runs"] if 2 <= len(run["lines"]) <= (4 if ctx.quick else 5))
